@@ -21,13 +21,15 @@ CRYPTO_TRUSTED = [
 ]
 
 
-def K(name, harness, tier, kind, functions, statement, timeout=300, bound=None, expect=None, module="srtp"):
+def K(name, harness, tier, kind, functions, statement, timeout=300, bound=None, expect=None, module="srtp", min_covers=None):
     d = {"name": name, "harness": "%s::verif_kani::%s" % (module, harness), "tier": tier, "kind": kind,
          "functions": functions, "statement": statement, "timeout": timeout}
     if bound:
         d["bound"] = bound
     if expect:
         d["expect"] = expect
+    if min_covers is not None:
+        d["min_covers"] = min_covers
     return d
 
 
@@ -69,5 +71,95 @@ PROPS["C04"] = {
           ["SrtpContext::estimate_roc", "SrtpContext::update"],
           "verbatim estimate_roc/update satisfy est()/upd(); lemma index_tracking: for any arrival sequence with each genuine index within 2^15-1 of the running maximum, every packet is estimated with the sender's ROC (induction over Seq<int>, unbounded)",
           min_verified=9),
+    ],
+}
+
+# =============================================================================== C05
+HM = "hmac substitute (deterministic keyed fold)"
+PROPS["C05"] = {
+    "level": "proof",
+    "explanation": "context-level contracts: Err => receiver crypto state (rollover counter, last sequence, SRTCP index) unchanged; Ok => the stripped tag equals the MAC recomputed by the harness over EVERY preceding byte (and the ROC for RTP); short inputs rejected. Packet shapes are bounded and reported as bounded stand-ins; only constant_time_eq is unbounded over its reachable domain.",
+    "trusted_base": CRYPTO_TRUSTED + ["SrtpPacket built literally by the harness (SrtpPacket::parse does not execute in CBMC, DESIGN 2.5)"],
+    "kani": [
+        K("constant_time_eq == slice equality", "c05_constant_time_eq_spec", "quick", "proof", ["constant_time_eq"],
+          "constant_time_eq(a,b) == (a==b) for every pair of slices of length <= 20 (= SHA1_LEN, every reachable size)"),
+        K("unprotect_rtcp HMAC-80: frame + tag over all bytes (22 B, fixed key)", "c05_unprotect_rtcp_hmac80_22_fixedkey", "quick", "bounded",
+          ["SrtpContext::unprotect_rtcp", "SrtpContext::auth_tag_rtcp_into", "constant_time_eq"],
+          "Err => (roc,last_seq,rtcp_index) unchanged; Ok => tag == MAC(k, packet[..len-10])[..10], output = packet minus index and tag, index advances only to the authenticated value",
+          bound="packet = 22 bytes (8 header + 0 body + 4 index + 10 tag), symbolic content and context state, one concrete auth key; " + HM, timeout=600),
+        K("unprotect_rtcp HMAC-80: frame + tag over all bytes (26 B, any key)", "c05_unprotect_rtcp_hmac80_26_anykey", "thorough", "bounded",
+          ["SrtpContext::unprotect_rtcp", "SrtpContext::auth_tag_rtcp_into", "constant_time_eq"],
+          "same contract, symbolic 20-byte auth key",
+          bound="packet = 26 bytes, symbolic content, state and key; " + HM, timeout=1800),
+        K("unprotect_rtcp GCM: frame + AEAD open (32 B)", "c05_unprotect_rtcp_gcm_32", "quick", "bounded",
+          ["SrtpContext::unprotect_rtcp", "SrtpContext::build_gcm_rtcp_nonce"],
+          "Err => crypto state unchanged (the SRTCP index advances only on an authenticated packet); Ok => AEAD opens with AAD = header(8)||index word, nonce = RFC 7714 9.1, tag = 16 bytes before the index",
+          bound="packet = 32 bytes (8 hdr + 4 ct + 16 tag + 4 index), symbolic content and state, one concrete key; aes-gcm substitute", timeout=600),
+        K("unprotect_rtcp short input (NULL, 0 B)", "c05_unprotect_rtcp_short_null_0", "quick", "bounded", ["SrtpContext::unprotect_rtcp"],
+          "Err(PacketTooShort), state unchanged", bound="length 0, profile NullCipherHmac"),
+        K("unprotect_rtcp short input (SHA1_32, 7 B)", "c05_unprotect_rtcp_short_sha32_7", "quick", "bounded", ["SrtpContext::unprotect_rtcp"],
+          "Err(PacketTooShort), state unchanged", bound="length 7 (< 4+4), profile Aes128Sha1_32"),
+        K("unprotect_rtcp short input (SHA1_80, 13 B)", "c05_unprotect_rtcp_short_sha80_13", "quick", "bounded", ["SrtpContext::unprotect_rtcp"],
+          "Err(PacketTooShort), state unchanged", bound="length 13 (< 10+4), profile Aes128Sha1_80"),
+        K("unprotect_rtcp short input (GCM, 19 B)", "c05_unprotect_rtcp_short_gcm_19", "quick", "bounded", ["SrtpContext::unprotect_rtcp"],
+          "Err(PacketTooShort), state unchanged", bound="length 19 (< 16+4), profile AeadAes128Gcm"),
+        K("unprotect HMAC-80: frame + tag over header||body||ROC (body 10 B, fixed key)", "c05_unprotect_hmac80_body10_fixedkey", "quick", "bounded",
+          ["SrtpContext::unprotect", "SrtpContext::estimate_roc", "SrtpContext::update", "RtpHeader::write_to", "constant_time_eq"],
+          "Err => crypto state unchanged; Ok => body tail == MAC(k, header image || body || roc_be)[..10] with roc = RFC 3711 estimate, state advanced per post_update",
+          bound="12-byte header (all fields symbolic), body = 0 payload + 10 tag, one concrete key; " + HM, timeout=900),
+        K("unprotect HMAC-80: frame + tag (body 14 B, any key)", "c05_unprotect_hmac80_body14_anykey", "thorough", "bounded",
+          ["SrtpContext::unprotect", "SrtpContext::estimate_roc", "SrtpContext::update", "RtpHeader::write_to", "constant_time_eq"],
+          "same contract, 4-byte payload, symbolic key",
+          bound="12-byte header, body = 4 payload + 10 tag, symbolic key; " + HM, timeout=1800),
+        K("unprotect GCM: frame + AEAD open (body 18 B)", "c05_unprotect_gcm_body18", "thorough", "bounded",
+          ["SrtpContext::unprotect", "SrtpContext::build_gcm_nonce"],
+          "Err => crypto state unchanged; Ok => AEAD opens with AAD = header image, nonce = RFC 7714 8.1 (seq, estimated roc), tag = last 16 bytes",
+          bound="12-byte header, body = 2 ct + 16 tag, one concrete key; aes-gcm substitute", timeout=1800),
+        K("unprotect short body (NULL, 0 B)", "c05_unprotect_short_null_0", "quick", "bounded", ["SrtpContext::unprotect"],
+          "Err(PacketTooShort), state unchanged", bound="body length 0"),
+        K("unprotect short body (SHA1_32, 3 B)", "c05_unprotect_short_sha32_3", "quick", "bounded", ["SrtpContext::unprotect"],
+          "Err(PacketTooShort), state unchanged", bound="body length 3"),
+        K("unprotect short body (SHA1_80, 9 B)", "c05_unprotect_short_sha80_9", "quick", "bounded", ["SrtpContext::unprotect"],
+          "Err(PacketTooShort), state unchanged", bound="body length 9"),
+        K("unprotect short body (GCM, 15 B)", "c05_unprotect_short_gcm_15", "quick", "bounded", ["SrtpContext::unprotect"],
+          "Err(PacketTooShort), state unchanged", bound="body length 15"),
+        K("canary: estimate_roc always returns roc", "canary_estimate_roc_always_roc", "quick", "canary", ["SrtpContext::estimate_roc"],
+          "false claim, must FAIL", expect="fail"),
+    ],
+}
+
+# =============================================================================== C03
+DM = "transports::dtls"
+TRACE_STUBS = ["stubs: tracing::callsite::DefaultCallsite::interest / __is_enabled / Event::dispatch (logging is a no-op; a reachable thread_local! crashes the Kani compiler)"]
+PROPS["C03"] = {
+    "level": "proof",
+    "explanation": "record-acceptance gate try_decrypt_record for all epochs / 48-bit sequence numbers / content types / key states / roles; AAD layout; decrypt_record_with_cipher nonce/AAD/tag layout; encrypt/decrypt round trip with explicit nonce == record sequence",
+    "trusted_base": CRYPTO_TRUSTED[1:2] + TRACE_STUBS + [
+        "recording stubs for decrypt_record / decrypt_record_with_cipher inside the gate obligations (the callees have their own obligations c03_decrypt_*)",
+        "DtlsInner handed to try_decrypt_record as uninitialised memory (the function never reads self; a read would be flagged)",
+        "HandshakeContext built literally by the harness"],
+    "kani": [
+        K("gate: no keys", "c03_gate_no_keys", "quick", "proof", ["DtlsInner::try_decrypt_record"],
+          "for every epoch, seq, type, version, role: epoch!=0 => Err; Ok(ApplicationData) => epoch!=0; epoch-0 Handshake/CCS pass through unchanged",
+          module=DM, min_covers=1),
+        K("gate: session_keys", "c03_gate_session_keys", "quick", "proof", ["DtlsInner::try_decrypt_record"],
+          "epoch!=0 => exactly decrypt_record(type, version, epoch*2^48|seq, payload) under the PEER's write key/iv; Ok(ApplicationData) or Ok(Alert) => epoch!=0",
+          module=DM),
+        K("gate: session_crypto", "c03_gate_session_crypto", "quick", "proof", ["DtlsInner::try_decrypt_record"],
+          "same with the cached-cipher path decrypt_record_with_cipher", module=DM),
+        K("make_aad layout", "c03_make_aad_spec", "quick", "proof", ["make_aad"],
+          "aad == seq(8) || type || major || minor || len(2) for every input with len <= 65535", module=DM),
+        K("decrypt_record_with_cipher layout (28 B)", "c03_decrypt_with_cipher_28", "quick", "bounded", ["decrypt_record_with_cipher", "make_aad"],
+          "Ok(p) iff AEAD opens with nonce = iv||payload[0..8], AAD = make_aad(seq,type,version,|ct|), tag = last 16; p == plaintext",
+          bound="payload = 28 bytes (8 nonce + 4 ct + 16 tag), symbolic iv/seq/content; aes-gcm substitute", module=DM, timeout=600),
+        K("decrypt_record_with_cipher short (23 B)", "c03_decrypt_with_cipher_short_23", "quick", "bounded", ["decrypt_record_with_cipher"],
+          "payload shorter than 8+16 => Err, no panic", bound="payload = 23 bytes", module=DM, min_covers=0),
+        K("decrypt_record_with_cipher short (0 B)", "c03_decrypt_with_cipher_short_0", "quick", "bounded", ["decrypt_record_with_cipher"],
+          "empty payload => Err, no panic", bound="payload = 0 bytes", module=DM, min_covers=0),
+        K("encrypt_record∘decrypt_record (4 B)", "c03_encrypt_decrypt_roundtrip_4", "quick", "bounded", ["encrypt_record", "decrypt_record", "make_aad"],
+          "decrypt(encrypt(p)) == p; wire explicit nonce == seq (a fresh sequence number gives a fresh nonce)",
+          bound="plaintext = 4 bytes, symbolic iv/seq/type; aes-gcm substitute", module=DM, timeout=600),
+        K("canary: gate rejects every epoch-0 record", "canary_gate_rejects_all_epoch0", "quick", "canary", ["DtlsInner::try_decrypt_record"],
+          "false claim, must FAIL", expect="fail", module=DM),
     ],
 }
